@@ -74,7 +74,30 @@ func mutate(rt *rapid.T, ctx *Ctx, t *model.Type, b []byte, labels map[string]in
 	b = append([]byte{}, b...)
 	n := rapid.IntRange(1, 3).Draw(rt, "nmut")
 	for i := 0; i < n; i++ {
-		switch rapid.IntRange(0, 9).Draw(rt, "mutator") {
+		switch rapid.IntRange(0, 10).Draw(rt, "mutator") {
+		case 10:
+			// a record whose tag is padded (up to ten bytes) and whose next varint -
+			// value or length - is a run of continuation bytes, appended so that it
+			// may run to the very end of the input however long that run is
+			fds := t.Desc.Fields()
+			if fds.Len() > 0 {
+				labels["mut:padded-tag-unterminated-varint"]++
+				fd := fds.Get(rapid.IntRange(0, fds.Len()-1).Draw(rt, "padfield"))
+				num := uint64(fd.Number())
+				if rapid.IntRange(0, 2).Draw(rt, "padunknown") == 0 {
+					num = uint64(rapid.SampledFrom([]int{1, 15, 16, 999, 2048, 100000, 536870911}).Draw(rt, "padnum"))
+				}
+				tag := num<<3 | uint64(rapid.SampledFrom([]int{0, 0, 2, 2, 1, 5}).Draw(rt, "padtyp"))
+				b = appendPadded(b, tag, rapid.IntRange(protowire.SizeVarint(tag), 10).Draw(rt, "padwidth"))
+				fill := byte(rapid.SampledFrom([]int{0xff, 0x80, 0x81}).Draw(rt, "padfill"))
+				for j, run := 0, rapid.IntRange(0, 24).Draw(rt, "padrun"); j < run; j++ {
+					b = append(b, fill)
+				}
+				if rapid.IntRange(0, 2).Draw(rt, "padend") == 0 {
+					b = append(b, 0x01)
+					b = append(b, rapid.SliceOfN(rapid.Byte(), 0, 20).Draw(rt, "padtail")...)
+				}
+			}
 		case 9:
 			// the same record many times over (many chunks of one field)
 			if recs, ok := model.SplitRecords(b); ok && len(recs) > 0 {
